@@ -1,5 +1,150 @@
+(* C02 proofs: what a delivered message was authenticated by *)
 From PV Require Import Bytes C01 C01_proofs C02.
 From Coq Require Import ZArith List Bool Lia ZifyBool.
 Import ListNotations.
 Open Scope Z_scope.
-Lemma stub2_true : True. Proof. exact I. Qed.
+
+Section Inv.
+Variable P : prims.
+Notation FS := (list Z).
+
+Ltac inv_step H :=
+  match type of H with
+  | context [match ftake ?n ?b with _ => _ end] =>
+      let E := fresh "Et" in destruct (ftake n b) as [[? ?]|] eqn:E; try discriminate H
+  | context [if ?c then _ else _] =>
+      let E := fresh "Ec" in destruct c eqn:E; try discriminate H
+  | context [match a_dec ?Q ?k ?iv ?c ?a with _ => _ end] =>
+      let E := fresh "Ea" in destruct (a_dec Q k iv c a) eqn:E; try discriminate H
+  | context [match inc_iv ?iv with _ => _ end] =>
+      let E := fresh "Ei" in destruct (inc_iv iv) eqn:E; try discriminate H
+  | context [match finish ?Q ?r ?m ?sz ?pk ?ev with _ => _ end] =>
+      let E := fresh "Ef" in destruct (finish Q r m sz pk ev) as [[[? ?] ?]|] eqn:E; try discriminate H
+  end.
+
+Lemma finish_ev r m sz pk ev p ev' r' : finish P r m sz pk ev = Ok (p, ev', r') -> ev' = ev.
+Proof.
+  unfold finish. destruct pk as [|pad pk]; [discriminate|].
+  destruct (match p_z r with
+            | Some z => bind (z_decomp P z (py_slice1 (pad :: pk) (sz - pad))) (fun dz => Ok (fst dz, Some (snd dz)))
+            | None => Ok (py_slice1 (pad :: pk) (sz - pad), None)
+            end) as [pz|]; cbn [bind]; [|discriminate].
+  destruct (((p_seq r + 1) mod 2 ^ 32 =? 0) && negb (p_kex r)); [discriminate|].
+  destruct (fst pz); [discriminate|]. intros H. now injection H.
+Qed.
+
+Ltac fin_ev :=
+  match goal with E : finish _ _ _ _ _ _ = Ok (_, ?a, _) |- _ =>
+    let X := fresh in pose proof (finish_ev _ _ _ _ _ _ _ _ E) as X; subst a end.
+
+(* C02_no_deliver_before_check: a payload is produced only by `finish`, and only after the tag
+   comparison (constant_time_bytes_eq / AEAD decrypt) succeeded on bytes bound to the current
+   sequence number / IV *)
+Lemma deliver_inv r buf p ev r' rest :
+  read_message P FS ftake r buf = Done (p, ev, r') rest ->
+  match p_mode r with
+  | Plain => True
+  | Classic c k =>
+      0 < p_msz r ->
+      exists size packet tag m',
+        ev = EvMac (mac_input (p_seq r) size packet) tag /\
+        constant_time_bytes_eq (mac_tag P k (p_msz r) (mac_input (p_seq r) size packet)) tag = true /\
+        finish P r m' size packet ev = Ok (p, ev, r')
+  | Etm c k =>
+      exists size packet tag,
+        ev = EvMac (mac_input (p_seq r) size packet) tag /\
+        constant_time_bytes_eq (mac_tag P k (p_msz r) (mac_input (p_seq r) size packet)) tag = true /\
+        finish P r (Etm (snd (c_dec P c packet)) k) size (fst (c_dec P c packet)) ev = Ok (p, ev, r')
+  | Aead k iv =>
+      exists aad ct pt iv',
+        ev = EvAead iv aad ct /\ a_dec P k iv ct aad = Some pt /\ inc_iv iv = Ok iv' /\
+        finish P r (Aead k iv') (be_decode aad) pt ev = Ok (p, ev, r')
+  end.
+Proof.
+  intros H. unfold read_message, read_classic in H. cbv zeta in H.
+  unfold rbind, rtake, rlift, rfail, rret in H.
+  destruct (p_mode r) as [|c k|c k|k iv] eqn:Em.
+  - exact I.
+  - intros Hm. cbv beta iota in H. repeat inv_step H; cbv beta iota in H; repeat inv_step H; try lia.
+    fin_ev. injection H as <- <- <-.
+    do 4 eexists. split; [reflexivity|]. split; [|eassumption].
+    match goal with E : negb _ = false |- _ => apply negb_false_iff in E; exact E end.
+  - repeat inv_step H. fin_ev. injection H as <- <- <-.
+    do 3 eexists. split; [reflexivity|]. split; [|eassumption].
+    match goal with E : negb _ = false |- _ => apply negb_false_iff in E; exact E end.
+  - repeat inv_step H. unfold bind in H. repeat inv_step H. fin_ev. injection H as <- <- <-.
+    do 4 eexists. repeat split; eassumption || reflexivity.
+Qed.
+
+Lemma ftake_bytes n buf x rest : bytes_ok buf = true -> ftake n buf = Some (x, rest) -> bytes_ok x = true.
+Proof.
+  intros Hb H. apply ftake_inv in H as [-> _]. rewrite bytes_ok_app in Hb.
+  now apply andb_true_iff in Hb as [Hx _].
+Qed.
+
+Lemma be4_range l : bytes_ok l = true -> 0 <= be_decode (firstn 4 l) < 2 ^ 32.
+Proof.
+  intros Hb. pose proof (be_decode_range (firstn 4 l) (bytes_ok_firstn 4 l Hb)) as R.
+  assert (L : (length (firstn 4 l) <= 4)%nat) by (rewrite firstn_length; lia).
+  assert (256 ^ Z.of_nat (length (firstn 4 l)) <= 256 ^ 4) by (apply Z.pow_le_mono_r; lia).
+  change (256 ^ 4) with (2 ^ 32) in *. lia.
+Qed.
+
+(* encrypt-then-MAC: as deliver_inv, and the length field (read in the clear from a byte
+   stream) is a 32-bit value *)
+Lemma deliver_inv_etm r buf p ev r' rest c k :
+  p_mode r = Etm c k -> bytes_ok buf = true ->
+  read_message P FS ftake r buf = Done (p, ev, r') rest ->
+  exists size packet tag,
+    0 <= size < 2 ^ 32 /\
+    ev = EvMac (mac_input (p_seq r) size packet) tag /\
+    constant_time_bytes_eq (mac_tag P k (p_msz r) (mac_input (p_seq r) size packet)) tag = true /\
+    finish P r (Etm (snd (c_dec P c packet)) k) size (fst (c_dec P c packet)) ev = Ok (p, ev, r').
+Proof.
+  intros Em Hb H. unfold read_message in H. cbv zeta in H.
+  unfold rbind, rtake, rlift, rfail, rret in H. rewrite Em in H.
+  repeat inv_step H. fin_ev. injection H as <- <- <-.
+  do 3 eexists. split; cycle 1.
+  - split; [reflexivity|]. split; [|eassumption].
+    match goal with E : negb _ = false |- _ => apply negb_false_iff in E; exact E end.
+  - apply be4_range. eapply ftake_bytes; eauto.
+Qed.
+End Inv.
+
+Section Step.
+Variable P : prims.
+Notation FS := (list Z).
+
+(* AEAD: in a given receiver state the authenticated (iv, aad, ciphertext) determines the delivered
+   payload and the next state: a stream accepted with the sender's triple delivers the sender's message *)
+Theorem aead_step r k iv T W p ev r' rest ph evh rh resth :
+  p_mode r = Aead k iv ->
+  read_message P FS ftake r T = Done (p, ev, r') rest ->
+  read_message P FS ftake r W = Done (ph, evh, rh) resth ->
+  ev = evh -> p = ph /\ r' = rh.
+Proof.
+  intros Em H1 H2 E. apply deliver_inv in H1. apply deliver_inv in H2. rewrite Em in H1, H2.
+  destruct H1 as (aad & ct & pt & iv1 & E1 & D1 & I1 & F1).
+  destruct H2 as (aad2 & ct2 & pt2 & iv2 & E2 & D2 & I2 & F2).
+  rewrite E1 in F1, E. rewrite E2 in F2, E. injection E as <- <-. clear E1 E2. rewrite D1 in D2. injection D2 as <-.
+  rewrite I1 in I2. injection I2 as <-. rewrite F1 in F2. injection F2 as <- <-. auto.
+Qed.
+
+Theorem etm_step r c k T W p ev r' rest ph evh rh resth :
+  p_mode r = Etm c k -> bytes_ok T = true -> bytes_ok W = true ->
+  read_message P FS ftake r T = Done (p, ev, r') rest ->
+  read_message P FS ftake r W = Done (ph, evh, rh) resth ->
+  ev = evh -> p = ph /\ r' = rh.
+Proof.
+  intros Em B1 B2 H1 H2 E.
+  destruct (deliver_inv_etm P r T p ev r' rest c k Em B1 H1) as (sz & pk & tg & R1 & E1 & _ & F1).
+  destruct (deliver_inv_etm P r W ph evh rh resth c k Em B2 H2) as (sz2 & pk2 & tg2 & R2 & E2 & _ & F2).
+  rewrite E1 in F1, E. rewrite E2 in F2, E. pose proof (f_equal (fun e => match e with EvMac m _ => m | _ => [] end) E) as Em2.
+  pose proof (f_equal (fun e => match e with EvMac _ t => t | _ => [] end) E) as Et2.
+  cbv beta iota in Em2, Et2. subst tg2. clear E E1 E2. unfold mac_input in Em2.
+  apply app_inv_head in Em2. apply app_inv_len in Em2 as [Es <-]; [|now rewrite !be_encode_length].
+  assert (sz2 = sz).
+  { apply (f_equal be_decode) in Es. rewrite !be4_roundtrip in Es by assumption. exact Es. }
+  subst sz2. unfold mac_input in F1, F2. rewrite F2 in F1. injection F1 as <- <-. auto.
+Qed.
+End Step.
